@@ -10,7 +10,7 @@ use super::{AvailableValue, HasGenKillInfo, HasGenValueInfo, MemoryLocation};
 
 impl HasGenKillInfo for ParserNode {
     fn kill_reg(&self) -> RegisterSet {
-        (if self.calls_to().is_some() || self.is_function_entry() {
+        (if self.calls_to().is_some() || self.is_indirect_call() || self.is_function_entry() {
             Register::caller_saved_set()
         } else if let Some(stored_reg) = self.writes_to().map(|x| x.get_cloned()) {
             RegisterSet::from_iter([stored_reg])
@@ -24,6 +24,13 @@ impl HasGenKillInfo for ParserNode {
             Register::all_writable_set()
         } else if self.is_return() {
             Register::callee_saved_set()
+        } else if self.is_indirect_call() {
+            // The callee is not known: it can read any argument register.
+            self.reads_from()
+                .into_iter()
+                .map(|x| *x.get())
+                .collect::<RegisterSet>()
+                | Register::argument_set()
         } else {
             self.reads_from().into_iter().map(|x| *x.get()).collect()
         }) - Register::const_zero_set()
